@@ -84,7 +84,7 @@ type machine struct {
 	trace   []Decision
 	prefix  []Decision
 	pos     int
-	alts    [][]Decision
+	alts    []workItem
 	globals map[*ssa.Global]*value
 
 	threads     []*thread
@@ -117,6 +117,8 @@ type machine struct {
 	mayBeFull   map[*chanObj]bool
 	addrs       map[*value]uint64
 	stubs       map[string]*int
+	model       map[string]uint64
+	evalCache   map[*Term]uint64
 	status      string // "", "ok", "infeasible", "error", "steplimit", "deadlock", "panic"
 	errMsg      string
 	violations  []Violation
@@ -136,6 +138,18 @@ type arrRead struct {
 // ---------- path condition & decisions ----------
 
 func (m *machine) addPC(t *Term) {
+	if t.IsTrue() {
+		return
+	}
+	if m.model != nil {
+		if v, ok := m.eval(t); !ok || v != 1 {
+			m.dropModel()
+		}
+	}
+	m.addPCKeepModel(t)
+}
+
+func (m *machine) addPCKeepModel(t *Term) {
 	if t.IsTrue() {
 		return
 	}
@@ -161,11 +175,25 @@ func (m *machine) nextPrefix(kind byte) (Decision, bool) {
 	return Decision{}, false
 }
 
-func (m *machine) pushAlt(d Decision) {
+type workItem struct {
+	prefix []Decision
+	model  map[string]uint64
+}
+
+func (m *machine) pushAlt(d Decision) { m.pushAltModel(d, nil) }
+
+func (m *machine) pushAltModel(d Decision, vals []ModelVal) {
 	alt := make([]Decision, len(m.trace)+1)
 	copy(alt, m.trace)
 	alt[len(m.trace)] = d
-	m.alts = append(m.alts, alt)
+	var mod map[string]uint64
+	if vals != nil && len(vals) >= len(m.vars) {
+		mod = make(map[string]uint64, len(m.vars))
+		for i, v := range m.vars {
+			mod[v.name] = vals[i].Bits
+		}
+	}
+	m.alts = append(m.alts, workItem{alt, mod})
 }
 
 // branch decides a symbolic condition, forking when both sides are feasible.
@@ -179,31 +207,61 @@ func (m *machine) branch(c *Term) bool {
 	if d, ok := m.nextPrefix('b'); ok {
 		m.trace = append(m.trace, Decision{K: 'b', C: d.C, F: d.F})
 		if d.C == 1 {
-			m.addPC(c)
+			m.addPCKeepModel(c)
 		} else {
-			m.addPC(mkNot(c))
+			m.addPCKeepModel(mkNot(c))
 		}
 		return d.C == 1
 	}
 	nc := mkNot(c)
-	r1, _ := m.solver.Check([]*Term{c}, nil)
+	if v, ok := m.eval(c); ok {
+		// the model satisfies one side: only the other needs a query
+		side, other := c, nc
+		if v == 0 {
+			side, other = nc, c
+		}
+		r, vals := m.solver.Check([]*Term{other}, m.vars)
+		if r == "unsat" {
+			m.trace = append(m.trace, Decision{K: 'b', C: int(v), F: true})
+			m.addPCKeepModel(side)
+			return v == 1
+		}
+		if r == "unknown" {
+			m.h.noteUnknownBranch()
+			vals = nil
+		}
+		m.pushAltModel(Decision{K: 'b', C: int(v ^ 1)}, vals)
+		m.trace = append(m.trace, Decision{K: 'b', C: int(v)})
+		m.addPCKeepModel(side)
+		return v == 1
+	}
+	r1, v1 := m.solver.Check([]*Term{c}, m.vars)
 	if r1 == "unsat" {
 		m.trace = append(m.trace, Decision{K: 'b', C: 0, F: true})
 		m.addPC(nc)
 		return false
 	}
-	r2, _ := m.solver.Check([]*Term{nc}, nil)
+	r2, v2 := m.solver.Check([]*Term{nc}, m.vars)
 	if r2 == "unsat" {
 		m.trace = append(m.trace, Decision{K: 'b', C: 1, F: true})
 		m.addPC(c)
+		if r1 == "sat" {
+			m.setModel(v1)
+		}
 		return true
 	}
 	if r1 == "unknown" || r2 == "unknown" {
 		m.h.noteUnknownBranch()
 	}
-	m.pushAlt(Decision{K: 'b', C: 0})
+	if r2 != "sat" {
+		v2 = nil
+	}
+	m.pushAltModel(Decision{K: 'b', C: 0}, v2)
 	m.trace = append(m.trace, Decision{K: 'b', C: 1})
 	m.addPC(c)
+	if r1 == "sat" {
+		m.setModel(v1)
+	}
 	return true
 }
 
@@ -253,50 +311,68 @@ func (m *machine) concretize(t *Term, why string) int64 {
 		panic(engineError{"symbolic value during concrete replay (" + why + "): " + t.String()})
 	}
 	w := t.sort.W
-	pick := func(excl []uint64) (uint64, bool) {
+	pick := func(excl []uint64) (uint64, []ModelVal, bool) {
 		var ex []*Term
 		for _, x := range excl {
 			ex = append(ex, mkNot(mkEq(t, mkBV(w, x))))
 		}
-		r, vals := m.solver.Check(ex, []*Term{t})
+		want := append(append([]*Term{}, m.vars...), t)
+		r, vals := m.solver.Check(ex, want)
 		if r != "sat" {
 			if r == "unknown" {
 				m.h.noteUnknownBranch()
 			}
-			return 0, false
+			return 0, nil, false
 		}
-		return vals[0].Bits, true
+		return vals[len(vals)-1].Bits, vals[:len(vals)-1], true
 	}
 	var v uint64
 	var excl []uint64
+	have := false
 	if d, ok := m.nextPrefix('v'); ok {
 		if d.X != nil {
 			excl = d.X
-			nv, ok := pick(excl)
+			if mv, ok := m.eval(t); ok {
+				v, have = mv, true
+				for _, x := range excl {
+					if x == v {
+						have = false
+					}
+				}
+			}
+			if !have {
+				nv, vals, ok := pick(excl)
+				if !ok {
+					m.endPath("infeasible")
+				}
+				v = nv
+				m.setModel(vals)
+			}
+		} else {
+			v = d.V
+			m.trace = append(m.trace, Decision{K: 'v', V: v})
+			m.addPCKeepModel(mkEq(t, mkBV(w, v)))
+			return signExt(v, w)
+		}
+	} else {
+		if mv, ok := m.eval(t); ok {
+			v = mv
+		} else {
+			nv, vals, ok := pick(nil)
 			if !ok {
 				m.endPath("infeasible")
 			}
 			v = nv
-		} else {
-			v = d.V
-			m.trace = append(m.trace, Decision{K: 'v', V: v})
-			m.addPC(mkEq(t, mkBV(w, v)))
-			return signExt(v, w)
+			m.setModel(vals)
 		}
-	} else {
-		nv, ok := pick(nil)
-		if !ok {
-			m.endPath("infeasible")
-		}
-		v = nv
 	}
 	// is there another value?
 	excl2 := append(append([]uint64{}, excl...), v)
 	if len(excl2) > 4096 {
 		panic(engineError{"concretize: more than 4096 feasible values for " + why})
 	}
-	if _, more := pick(excl2); more {
-		m.pushAlt(Decision{K: 'v', X: excl2})
+	if _, vals, more := pick(excl2); more {
+		m.pushAltModel(Decision{K: 'v', X: excl2}, vals)
 	}
 	m.trace = append(m.trace, Decision{K: 'v', V: v})
 	m.addPC(mkEq(t, mkBV(w, v)))
